@@ -188,10 +188,48 @@ func genC08deep(c *lp.Ctx) {
 // genC08accepted: "no silent loss" on ordinary inputs — every generated valid list is either refused with
 // an error or yields a trie that finds every key it was built from (the same clause as C01, asked here
 // of the builder's accept/refuse decision over all shape classes).
+// genC08inplace: the order check must run on EVERY build: a key slice that was accepted once is edited in place
+// (neighbours swapped, a key duplicated, a key replaced by a greater one) and handed to NewSlimTrie again.
+func genC08inplace(c *lp.Ctx) {
+	for it := 0; it < c.Pick(60, 300); it++ {
+		ks := gen.Any(c.Rng, c.Pick(100, 600))
+		if len(ks.Keys) < 3 {
+			continue
+		}
+		cs := NewCase(c.Rng, ks, "", "none")
+		if got := c.Do(cs.Line()); got != "ok" {
+			continue
+		}
+		keys := append([]string{}, cs.Keys...)
+		i := c.Rng.Intn(len(keys) - 1)
+		switch c.Rng.Intn(3) {
+		case 0:
+			keys[i], keys[i+1] = keys[i+1], keys[i]
+		case 1:
+			keys[i+1] = keys[i]
+		default:
+			keys[i] = keys[len(keys)-1] + "z"
+		}
+		cs2 := *cs
+		cs2.Keys = keys
+		line := strings.Replace(cs2.Line(), "trie.new", "trie.renew", 1)
+		c.Case(cs.Key()+"/inplace", true)
+		c.Hit("history:build,edit-slice-in-place,build")
+		if got := c.Do(line); got != "err:out-of-order" {
+			c.Violate(lp.Violation{What: "a key slice edited in place after an accepted build must be checked again: not strictly ascending -> ErrKeyOutOfOrder",
+				Script: []string{cs.Line(), line}, Expected: "err:out-of-order", Got: got})
+		}
+	}
+}
+
 func genC08accepted(c *lp.Ctx) {
 	n := c.Pick(100, 700)
 	for it := 0; it < n; it++ {
-		cs := NewCase(c.Rng, gen.Any(c.Rng, c.Pick(200, 1200)), "", "")
+		ks := gen.Any(c.Rng, c.Pick(200, 1200))
+		if it == 0 {
+			ks = gen.HugeTailSet(c.Rng) // keys far beyond the documented length: accepted means found
+		}
+		cs := NewCase(c.Rng, ks, "", "")
 		c.Case(cs.Key(), len(cs.Keys) >= 2)
 		line := cs.Line()
 		got := c.Do(line)
@@ -220,5 +258,6 @@ func genC08accepted(c *lp.Ctx) {
 func init() {
 	lp.RegisterGen("C08", genC08accepted)
 	lp.RegisterGen("C08", genC08deep)
+	lp.RegisterGen("C08", genC08inplace)
 	lp.RegisterGen("C08", genC08)
 }
